@@ -14,7 +14,9 @@ Three layers, all at atomic-access granularity (one `step` of a thread = one ato
 
 Pointers are small node ids (`0` = list head); `next` pointers are maps `Node → Option Node`.  The field `chain`
 (nodes reachable from the head, in order) and `wins` (successfully linked nodes) are GHOST: they are only written
-by the successful CAS and are proved to coincide with what the pointers say (`Linked`).
+by the successful CAS and are proved to coincide with what the pointers say (`follow next … = chain`).
+All three systems have inductive invariants for any number of threads and every schedule (Proofs/C12/*.lean);
+SplitOrder and SkipList are the models the E-SHIM traces of the real headers are replayed on, access by access.
 -/
 import TbbVerif.Core.Sched
 import TbbVerif.Core.Proto
